@@ -161,15 +161,8 @@ class ExprMixin:
             if not vs:
                 tv = TVar()
                 return k("([] : List {})".format(TyRef(tv)), TList(tv))
-            if any(isinstance(resolve(tc), TUnion) for _, tc in vs) and \
-                    all(isinstance(resolve(tc), TInt) or (isinstance(resolve(tc), TUnion) and isinstance(resolve(resolve(tc).a), TInt))
-                        for _, tc in vs):
-                # a list of literals: an entry computed by `group(i, j)` must be the scalar (an iterable is a TypeError)
-                def ints_(i, acc):
-                    if i == len(vs):
-                        return k("[" + ", ".join(acc) + "]", TList(INT))
-                    return self.as_int(vs[i][0], vs[i][1], lambda v: ints_(i + 1, acc + [v]))
-                return ints_(0, [])
+            # (a list of literals some of whose entries are `group(i, j)` values keeps them as scalar-or-sequence entries:
+            # what a list among the literals does is decided where the list is used — PyF.lits for the checked builders)
             t = vs[0][1]
             for _, t2 in vs[1:]:
                 t = join(t, t2)
